@@ -6,7 +6,9 @@ import (
 	"verif/harness/abci"
 	"verif/harness/hx"
 
+	simapp "github.com/KiraCore/sekai/app"
 	kiratypes "github.com/KiraCore/sekai/types"
+	baskettypes "github.com/KiraCore/sekai/x/basket/types"
 	custodytypes "github.com/KiraCore/sekai/x/custody/types"
 	govtypes "github.com/KiraCore/sekai/x/gov/types"
 	mstypes "github.com/KiraCore/sekai/x/multistaking/types"
@@ -515,6 +517,53 @@ func targetedHistories(r *hx.Rng, seed uint64) []*History {
 			{Req: abci.BlockReq{Dt: 5}, Txs: []TxSpec{prop(), setFee(sp, 100, 5000), prop(), netp(), setFee(np, 4000, 700), netp(), prop()}},
 			{Req: abci.BlockReq{Dt: 5}, Txs: []TxSpec{prop(), netp(), setFee(sp, 400, 450), prop(), prop(), setFee(np, 10, 20), netp()}},
 			{Req: abci.BlockReq{Dt: 5}, Txs: []TxSpec{netp(), prop(), w.bankSend()}},
+		}
+		hs = append(hs, h)
+	}
+	{ // genesis with time-keyed records to import: basket historical mints / burns / swaps (store keys are built from
+		// times made by time.Unix, which carry the host's local zone) and undelegations with expiries; the
+		// child-process replica lives in another time zone
+		cfg := baseCfg(seed, 935)
+		w := newWorld(r, cfg)
+		h := &History{Name: "genesis-time-keyed", Class: "genesis", Cfg: cfg, Extra: []string{"genesis:time-keyed-records"}}
+		base := uint64(hx.BaseTime.Unix())
+		h.GenesisMod = func(app *simapp.SekaiApp, gs simapp.GenesisState) {
+			var bg baskettypes.GenesisState
+			if len(gs[baskettypes.ModuleName]) > 0 {
+				app.AppCodec().MustUnmarshalJSON(gs[baskettypes.ModuleName], &bg)
+			}
+			for i := uint64(0); i < 6; i++ {
+				bg.HistoricalMints = append(bg.HistoricalMints, baskettypes.AmountAtTime{BasketId: 1 + i%2, Time: base - 3600*i - 17, Amount: sdk.NewInt(int64(1000 + i))})
+				bg.HistoricalBurns = append(bg.HistoricalBurns, baskettypes.AmountAtTime{BasketId: 1 + i%2, Time: base - 7200*i - 3, Amount: sdk.NewInt(int64(500 + i))})
+				bg.HistoricalSwaps = append(bg.HistoricalSwaps, baskettypes.AmountAtTime{BasketId: 1, Time: base - 86400*i, Amount: sdk.NewInt(int64(70 + i))})
+			}
+			bg.LastBasketId = 1
+			bg.Baskets = append(bg.Baskets, baskettypes.Basket{Id: 1, Suffix: "bk", Description: "genesis basket", Amount: sdk.ZeroInt(), SwapFee: sdk.NewDecWithPrec(1, 2),
+				SlipppageFeeMin: sdk.NewDecWithPrec(1, 2), TokensCap: sdk.OneDec(), LimitsPeriod: 3 * 86400, MintsMin: sdk.OneInt(), MintsMax: sdk.NewInt(3500),
+				BurnsMin: sdk.OneInt(), BurnsMax: sdk.NewInt(3500), SwapsMin: sdk.OneInt(), SwapsMax: sdk.NewInt(3500),
+				Tokens: []baskettypes.BasketToken{{Denom: "ukex", Weight: sdk.OneDec(), Amount: sdk.ZeroInt(), Deposits: true, Withdraws: true, Swaps: true},
+					{Denom: "ubtc", Weight: sdk.NewDec(10), Amount: sdk.ZeroInt(), Deposits: true, Withdraws: true, Swaps: true}}})
+			gs[baskettypes.ModuleName] = app.AppCodec().MustMarshalJSON(&bg)
+			var mg mstypes.GenesisState
+			if len(gs[mstypes.ModuleName]) > 0 {
+				app.AppCodec().MustUnmarshalJSON(gs[mstypes.ModuleName], &mg)
+			}
+			for i := uint64(1); i <= 3; i++ {
+				mg.Undelegations = append(mg.Undelegations, mstypes.Undelegation{Id: i, Address: w.acc[i].Addr.String(), ValAddress: w.val[0].ValAddr.String(), Expiry: base + 4*i, Amount: coins("ukex", int64(100*i))})
+			}
+			gs[mstypes.ModuleName] = app.AppCodec().MustMarshalJSON(&mg)
+		}
+		claim := func(i int) TxSpec {
+			return tx(i, fmt.Sprintf("a%d", i), &mstypes.MsgClaimMaturedUndelegations{Sender: w.acc[i].Addr.String()})
+		}
+		mint := func(i int) TxSpec {
+			return tx(i, fmt.Sprintf("a%d basket 1", i), &baskettypes.MsgBasketTokenMint{Sender: w.acc[i].Addr.String(), BasketId: 1, Deposit: coins("ukex", int64(200*i))})
+		}
+		h.Blocks = []BlockSpec{
+			{Req: abci.BlockReq{Dt: 5}, Txs: []TxSpec{w.bankSend(), claim(1), mint(2)}},
+			{Req: abci.BlockReq{Dt: 5}, Txs: []TxSpec{claim(2), claim(3), mint(1)}},
+			{Req: abci.BlockReq{Dt: 86400}, Txs: []TxSpec{claim(3), w.bankSend(), mint(3)}},
+			{Req: abci.BlockReq{Dt: 3 * 86400}, Txs: []TxSpec{mint(4), mint(5)}},
 		}
 		hs = append(hs, h)
 	}
